@@ -169,6 +169,46 @@ class AwaitablePayload:
         yield  # pragma: no cover
 
 
+class DualRecord:
+    """A record offering BOTH iteration protocols: iterated synchronously it gives its fields; its asynchronous
+    iteration is something else (a stream of audit rows) and nobody's business when the record is merely unpacked."""
+
+    def __init__(self, fields: Any):
+        self.fields = fields
+
+    def __iter__(self) -> Any:
+        return builtins.iter(self.fields)
+
+    def __aiter__(self) -> Any:
+        from .loop import CTX as _ctx
+        _ctx.foreign.append(f"the record {self.fields!r} was iterated asynchronously instead of being unpacked")
+
+        async def rows() -> Any:
+            for field in self.fields:
+                yield ("row", field)
+
+        return rows()
+
+    def __repr__(self) -> str:
+        return f"DualRecord{self.fields!r}"
+
+
+class TextOnAdd:
+    """An object whose addition (either side) answers with TEXT: ``0 + TextOnAdd("w")`` is ``"w"``."""
+
+    def __init__(self, text: str):
+        self.text = text
+
+    def __add__(self, other: Any) -> Any:
+        return self.text + (other if isinstance(other, str) else "")
+
+    def __radd__(self, other: Any) -> Any:
+        return (other if isinstance(other, str) else "") + self.text
+
+    def __repr__(self) -> str:
+        return f"TextOnAdd({self.text!r})"
+
+
 class Lookalike:
     """A plain value that merely EXPOSES an ``__await__`` attribute (set on the instance: a proxy, a stub, a record
     with that field): ``await`` looks the slot up on the TYPE, so this is not awaitable - a result / item like any
@@ -223,6 +263,10 @@ def decode(v: Any) -> Any:
             return OneSidedEq(v[1], v[2])
         if tag == "X":
             return Touchy(v[1], v[2])
+        if tag == "Du":
+            return DualRecord(builtins.tuple(v[1:]))
+        if tag == "Rs":
+            return TextOnAdd(v[1])
         if tag == "V":
             return Vec(v[1])
         if tag == "F":
@@ -866,6 +910,15 @@ def run_async_side(spec: dict, flavours: Optional[List[str]] = None, fn_flavours
                 CTX.ev("yield", canon(item))
                 del item
             CTX.ev(*side.term)
+            if fault is not None and side.term and side.term[0] == "raise":
+                # the consumer caught the failure and asks the tool once more (a retry loop): whatever the tool answers,
+                # it does not go back to a source or callable that has failed
+                marker = len(CTX.log)
+                try:
+                    await it.__anext__()
+                except BaseException:  # noqa: BLE001
+                    pass
+                del CTX.log[marker:]
             if spec["tool"] == "iter_sentinel" and side.term == ("stop",):
                 for _ in range(2):
                     try:
